@@ -29,6 +29,8 @@ pub struct Bounds {
     pub max_injects: usize,
     pub modes: Vec<Mode>,
     pub max_mode_changes: usize,
+    /// commands may also be issued after the Server future has resolved (late `stop` calls)
+    pub cmds_after_done: bool,
     pub kills: usize,
     /// how many workers may be killed by a panic inside `Service::call`
     pub call_kills: usize,
@@ -58,6 +60,7 @@ impl Default for Bounds {
             max_injects: 0,
             modes: vec![],
             max_mode_changes: 0,
+            cmds_after_done: false,
             kills: 0,
             call_kills: 0,
             conn_panics: 0,
@@ -220,7 +223,7 @@ pub fn enabled(sys: &Sys, b: &Bounds, u: &Used, conns: &[ConnInfo]) -> Vec<Ev> {
             }
         }
     }
-    if u.cmds < b.max_cmds && server_running {
+    if u.cmds < b.max_cmds && (server_running || b.cmds_after_done) {
         for c in &b.cmds {
             v.push(*c);
         }
